@@ -18,10 +18,10 @@ from props import c09_util as U9
 PROP = "C09"
 LEVEL = "proof"
 INCLUDE = ['w4s_c09', 'w4s_c09b']   # wave 4 (lead, integration): generated skeleton of the cp_als main loop (Gen/GenCpAls.v): bridge theorem + replay stream sk_cpals
-GEN_UNITS = ["GenCpAls"]
-COQ_TARGETS = ["Props/C09.vo", "Props/C09b.vo", "Props/C09c.vo", "Props/C09d.vo", "Props/C09e.vo", "Model/C09Exec.vo", "Model/C09Init.vo", "Model/C09Replay.vo",
+GEN_UNITS = ["GenCpAls", "GenCpAlsPre"]
+COQ_TARGETS = ["Props/C09.vo", "Props/C09b.vo", "Props/C09c.vo", "Props/C09d.vo", "Props/C09e.vo", "Props/C09W8.vo", "Model/C09Exec.vo", "Model/C09Init.vo", "Model/C09Replay.vo",
                "Model/C09InnerExec.vo", "Model/Harness.vo"]
-THEOREM_FILES = ["Props/C09.v", "Props/C09b.v", "Props/C09c.v", "Props/C09d.v", "Props/C09e.v"]
+THEOREM_FILES = ["Props/C09.v", "Props/C09b.v", "Props/C09c.v", "Props/C09d.v", "Props/C09e.v", "Props/C09W8.v"]
 COQ_IMPORTS = ("From Coq Require Import List ZArith QArith Qcanon Bool.\n"
                "From PV Require Import Base.Index Np.Array Model.Sparse Model.Repr Model.Harness Model.C09Als Model.C09Exec Model.C09Init Model.C09Replay Model.C09InnerExec.\n")
 RULE = ("integer data tensors 3x3x2 .. 4x3x2, 2-way and 4-way (<= 24 entries) held as dense / sparse (3 stored orders) / Tucker / "
